@@ -50,6 +50,7 @@ def run(repo, tier):
     r.rule("R15.5", "mpf2float's underflow/overflow results carry the sign: the negative arm is a float negative zero / negative infinity", floor=2)
     r.rule("R15.6", "mpf2float's underflow and overflow tests read the exponent and bit count of the value rounded to the target precision, on every path", floor=2)
     r.rule("R15.9", "mpf2float rounds once: the precision of the rounding step depends on how many bits the format offers at the exponent of the value (subnormal results)", floor=1)
+    r.rule("R15.10", "mpf2float hands the raw fields of the caller's own value to the rounding step (no copy through the context, which would round to the working precision first)", floor=1)
     r.rule("R15.8", "mpf2float thresholds derived per format and flush flag from the range tests as they are (operator, table, offsets): infinity exactly from exp + bc = emax + 2, zero up to half the smallest subnormal (no flush) or exactly below the smallest normal (flush)", floor=9)
     r.rule("R15.4", "mpf2float reads IEEE-correct exponent tables; zero is returned below a threshold, infinity above one", floor=13)
 
@@ -248,6 +249,7 @@ def run(repo, tier):
          "zero is returned below the zero threshold, infinity above float_maxexp", loc(REL, mf))
     check_thresholds_derived(r, repo, mf, rtests)
     check_single_rounding(r, repo, mf)
+    check_unrounded_input(r, repo, mf)
     # ------------------------------------------------------------------ R15.7 wrapper caches
     # The numpy_with_* namespaces cache the vectorised wrapper they build with **self.params under a key: the key must determine
     # everything the wrapper is built from - the name and the whole of self.params - or a namespace with other options is handed
@@ -329,6 +331,51 @@ def check_single_rounding(r, repo, mf, rule="R15.9"):
     r.ob(rule, f"{REL}::mpf2float subnormal results are rounded once", ok,
          "the precision handed to _normalize never depends on the exponent of x: a value below the smallest normal is rounded to the full precision first and then "
          "again by ldexp onto the subnormal grid (and everything between half the smallest subnormal and the smallest subnormal becomes zero)", loc(REL, calls[0]))
+
+
+def check_unrounded_input(r, repo, mf, rule="R15.10"):
+    """mpf2float rounds exactly once only if the value that reaches _normalize is the caller's value itself: the raw fields
+    `x._mpf_` of the *parameter*.  A copy made on the way (`x = ctx.mpf(x)`, `+x`, `x * 1`, `ctx.convert(x)`) is rounded to the
+    context's working precision first; when that precision lies between the target's and the value's, the first rounding can
+    land on a tie of the target format and the second one picks the wrong neighbour.  Decided on statement paths: at every call
+    of _normalize the object whose `_mpf_` is passed is the parameter, not rebound since function entry."""
+    from sa.paths import enumerate_paths
+    from sa.defuse import last_def
+
+    xname = mf.args.args[1].arg
+    n = 0
+    seen = set()
+    for path in enumerate_paths(mf, unroll=(0, 1), limit=20000):
+        for i, e in enumerate(path.events):
+            if e.kind != "stmt":
+                continue
+            for c in ast.walk(e.node):
+                if not (isinstance(c, ast.Call) and (dotted(c.func) or "").endswith("_normalize")):
+                    continue
+                srcs = [a.value if isinstance(a, ast.Starred) else a for a in c.args]  # in order: the value fields come first
+                raw = [v for v in srcs[:1] if isinstance(v, ast.Attribute) and v.attr == "_mpf_"]
+                if not raw:
+                    # fields unpacked earlier: follow the first argument to the unpacking of `<obj>._mpf_`
+                    first = srcs[0] if srcs else None
+                    if isinstance(first, ast.Name):
+                        ld = last_def(first.id, path.events, i)
+                        if ld is not None and isinstance(ld[1], ast.Attribute) and ld[1].attr == "_mpf_":
+                            raw = [ld[1]]
+                if not raw:
+                    raise AnalysisError(f"mpf2float: the value handed to `{norm_src(c)[:80]}` is not the `_mpf_` fields of an object")
+                obj = raw[0].value
+                ld = last_def(obj.id, path.events, i) if isinstance(obj, ast.Name) else ("?", obj)
+                ok = isinstance(obj, ast.Name) and obj.id == xname and ld is None
+                key = (c.lineno, ok, norm_src(ld[1]) if ld else "")
+                if key in seen:
+                    continue
+                seen.add(key)
+                n += 1
+                r.ob(rule, f"{REL}::mpf2float rounds the caller's own value" + ("" if ok else f" [{norm_src(ld[1])[:60] if ld else norm_src(obj)}]"), ok,
+                     f"the value rounded by _normalize is `{norm_src(obj)}`" + (f", rebound by `{norm_src(ld[1])[:80]}`" if ld else "")
+                     + ": a copy made through the context is rounded to the context's working precision first, so a value with more bits than that is rounded twice", loc(REL, c))
+    if n == 0:
+        raise AnalysisError("mpf2float: no call of _normalize found on any path")
 
 
 class _RawField(Exception):
